@@ -3,6 +3,7 @@ CONSTANTS
   RewriteAllSites = FALSE
   RewriteOnEndpoint <- AllEndpoints
   SingleApplyPath = TRUE
+  SiteIndependent = TRUE
   Mode = "mc"
   MaxReq = 2
   MaxClock = 2
